@@ -243,6 +243,13 @@ class Discharger:
                 if c is not None and ty in BITS and 0 <= c < BITS[ty]:
                     return ("CONST-SHIFT", "shift by constant %d < %d bits" % (c, BITS[ty]))
                 return None
+            if msg == "OverflowNeg":
+                # `-CONST` overflows only for the minimum of the type
+                ty = _op_ty(fn, mops[0], None)
+                c = mops[0].get("int") if mops[0].get("k") == "const" else _const(S.val(mops[0]))
+                if c is not None and ty in SIGNED_RANGE and c != SIGNED_RANGE[ty][0]:
+                    return ("CONST-NEG", "negation of the constant %d, which is not %s::MIN" % (c, ty))
+                return None
             if msg in ("DivisionByZero", "RemainderByZero"):
                 div = self._divisor(fn, t)
                 if div is not None:
